@@ -50,7 +50,8 @@ func UnmarshalCursor[Options any](v string, modifiers ...func(query *InitialPagi
 		q = &ColumnPaginatedQuery[Options]{}
 	}
 
-	if err := json.Unmarshal(res, &q); err != nil {
+	// decode into the query itself (q holds a pointer): through &q a JSON null would reset the interface to nil
+	if err := json.Unmarshal(res, q); err != nil {
 		return nil, err
 	}
 
